@@ -154,3 +154,45 @@ entry("C05", True, "model_checking",
       "Trusted: harness/gen.py regex walker (payload members of the library's own CODES_SCHEMA regexes). Ranges are not judged for "
       "codes the library itself names unknown_*/message_*.",
       "TLC model checking of decode histories + TLC trace validation of real decodes", "DESIGN.md §4 C05")
+
+entry("C10", True, "model_checking",
+      "spec/DevFilter.tla states the filter rule as the property words it (block beats allow, gateway exemption, placeholder id when "
+      "sending, enforcement only with a non-empty known list) next to a clause-by-clause transcription of _is_wanted_addrs; TLC "
+      "checks that MustDrop/MustPass is a total, disjoint partition of every (configuration, source, destination, address shape, "
+      "direction) and that the transcription equals the rule, and exports the complete row table. Every row is executed on the real "
+      "objects at protocol level (PortProtocol, ReadProtocol), gateway level (handler + device creation, eavesdropping on/off), "
+      "send level (gwy.async_send_cmd vs. write_frame), file replay and cache restore; the outcome table is judged by TLC against "
+      "clauses a-d (DevFilterTrace).",
+      "Trusted: harness fakes and the 9-id universe being representative of ids (one id per role: listed, unlisted, blocked, "
+      "listed+blocked, gateway, foreign 18:, placeholder, broadcast, null). Python records outcomes only; expectations are TLC's.",
+      "TLC model checking of the filter rule + TLC table validation of real protocol / gateway / send outcomes", "DESIGN.md §4 C10")
+entry("C11", True, "model_checking",
+      "spec/TxRegulator.tla models the duty-cycle wrapper as its real non-atomic steps (top-up, sleep, leak token, write, debit in "
+      "finally) with concurrent writers, the leaky semaphore and integer time, spec/TxMqtt.tla the MQTT token bucket; TLC checks the "
+      "shadow-bucket bound, write spacing, no loss / no duplicate, bounded termination, and (own instance) write order. TLC "
+      "behaviours and designed arrival patterns (bursts, steady above/below the limit, idle gaps, concurrent callers, hours of air "
+      "time, all frame lengths) run on the real PortTransport (FakeSerial, substituted perf_counter) and MqttTransport (stub paho); "
+      "TLC judges every recorded write trace against clauses a-d, recomputing the bucket itself (TxTrace), and compares the code's "
+      "own bucket with the model (drift).",
+      "Trusted: FakeSerial / stub paho rigs, the substituted perf_counter. The long-run 1 % rate is judged as the windowed bound over "
+      "<= 1 h windows (32-bit integers). Known finding: concurrent write_frame() callers can overtake each other (C11d).",
+      "TLC model checking of the regulator + TLC trace validation of real transport write traces", "DESIGN.md §4 C11")
+entry("C12", True, "model_checking",
+      "spec/Discovery.tla models the controller configuration, the per-entity polling tables (await-grain pollers iterating a live "
+      "dict), lossy RQ/RP exchanges, overtaking replies and the 0005/000C/000D/000E/010E/000F handlers; TLC checks that knowledge is "
+      "sound and monotone always, that it equals the configuration once the polling round after the last loss is over, and "
+      "eventual completeness under fairness, for all small configurations x loss placements. The same configurations and loss "
+      "patterns (plus larger generated ones) drive a real Gateway with discovery enabled against a scripted controller in virtual "
+      "time (24 h rounds); schema samples are judged by TLC against DiscoveryTrace (sound, monotone, complete by the round after "
+      "the last loss).",
+      _GW_NOTE + " Which RQs discovery sends is recorded, not judged. Exhaustive for <= 2 zones in the model, sampled for larger systems.",
+      "TLC model checking (safety + liveness) + TLC trace validation of real Gateway discovery runs", "DESIGN.md §4 C12")
+entry("C15", True, "model_checking",
+      "spec/Topology.tla transcribes the accept/refuse rules that build the parent/child graph (set_parent/_get_parent/_add_child, "
+      "zone creation and class promotion, 0005 masks, 000C roles, DHW and appliance slots, eavesdropped parents); TLC checks one "
+      "controller and one zone/role per device, one sensor per zone, zone indexes in range and 'no silent move' under all claim "
+      "orders. TLC behaviours are replayed as real 0005/000C/2309 frames through a real Gateway with the object graph compared "
+      "after every step; histories from the model, from the library's own type tables and from the shipped logs (spliced, "
+      "shuffled, repeated) are judged by TLC against TopologyTrace: validator accepts the schema, a fresh gateway reloads to the "
+      "same graph, structural clauses, moves reported.",
+      _GW_NOTE, "TLC model checking + stepwise conformance replay on a real Gateway + TLC trace validation", "DESIGN.md §4 C15")
